@@ -16,9 +16,11 @@ CLAIMED = {
  "C05": ("exploration", "4 C05", "hostile-stream generators (small-alphabet strings, mutations with numeric blow-ups, endless constructs, gzip bomb) under segmentation, FIN/RST/stall, EINTR and re-reads; oracles: no panic in any simulated thread, termination (kernel deadlock/event cap + real-time hang monitor), bounded transport consumption per construct, allocation monitor with a hard cap whose abort is attributed to the run by the wrapper."),
  "C06": ("exploration", "4 C06", "flate2-encoded payloads (levels 0..9, hand-written gzip headers) x framing x segmentation x read schedule, plus truncation / trailer-bit-flip faults on the compressed stream; oracle = the encoder's input (prefix + error under damage), Accept-Encoding iff allowed."),
  "C07": ("exploration", "4 C07", "generated caller programs (all body kinds incl. custom Body write sequences) x transport write schedules (short writes, EINTR, slow peer); the bytes the simulated peer received are parsed by an independent strict request parser and compared with the program. Mostly an input/program property - the simulator contributes the write-side fault schedule and the per-connection byte record."),
+ "C08": ("exploration", "4 C08", "seeded sampling of URL forms x proxy worlds (direct, forward proxy incl. inside TLS to an https proxy, CONNECT tunnel) with TLS peers so that inner requests are observed in clear; observed on the address handed to connect, request target and Host. A configuration/input property; the simulator supplies the multi-party world and the dial observation."),
  "C09": ("exploration", "4 C09", "seeded search over redirect graphs (histories of connections) against a reference interpreter with an independent RFC 3986 resolver; observed on the recorded connection history of the simulated world."),
  "C10": ("exploration", "4 C10", "seeded search over redirect chains x body kinds x forward-proxy worlds in which proxy applicability changes between hops; every hop's bytes pass the C07 oracle, cross-hop equality for 307/308, dialled peer per hop."),
  "C11": ("exploration", "4 C11 / 5", "configuration sampling against a reference matcher, with the simulator owning the process environment (guarded env seam) and observing which peer send() dials. There is no schedule, clock or fault in this property; this is stated in DESIGN.md and the check is claimed as seeded exploration of configurations only."),
+ "C12": ("exploration", "4 C12", "fault-injecting exploration of the CONNECT exchange: reply status/head damage/body length/delay/segmentation/ending drawn per run; the write-ordering invariant (no byte after the CONNECT head before a complete 2xx head was delivered) is checked on the recorded event order of the proxy connection and on the proxy's plaintext log with virtual timestamps; leak search over everything written in clear; ConnectError fields; SNI/certificate name inside the tunnel via rustls peers, incl. https proxies (TLS-in-TLS)."),
  "C13": ("exploration", "4 C13", "the central simulation target: production connect_tcp/watchdog/read_timeout()/send() loop over simulated socket, channel, thread and virtual clock; seeded search over stall/drip phases x T/R x caller read histories x thread interleavings at every primitive; zero-margin virtual-time bounds, no-false-timeout, cut-body-never-complete and thread/socket census oracles."),
  "C14": ("exploration", "4 C14", "the finite matrix (cert chain kind x name x flags x root x route x flag placement = 576 cells) is walked completely by run index against rustls ServerConnection peers inside the simulated multi-party world, for both TLS back ends (two builds); reported as exploration because nothing beyond the matrix (schedules, faults) is searched - evidence marks the matrix as exhaustive. No schedule or fault decides this property; said so in DESIGN.md."),
  "C15": ("exploration", "4 C15", "seeded forms (adversarial data, sizes covering residues of the 8 KiB copy buffer) transferred under short-write/EINTR schedules; the de-chunked body is decoded by an independent multipart decoder. Mostly an input property; said so."),
